@@ -64,6 +64,16 @@ CLAIMS = {
              'follows from these per-operation rules; numerical conversion factors and the format round trip are NOT decided.',
         note='Trusts: CPython ast; oracles/dimension_rules.json (classification of each operation by dimensional analysis; SI prefixes).',
         design='DESIGN.md section 2, C20'),
+    'C16': dict(
+        technique='static analysis: lock-region containment, typestate of _fork over enumerated flag-sensitive paths with no-return exits, emission discipline of the block builder, who-may-construct table, shared-allocation def-use (ast)',
+        text='Decides the lock, fork and sharing discipline for every schedule: the shared iteration counter is touched only inside its lock in one claim/test/increment critical section and is created before '
+             'the fork; in _fork every path on which the process is a child ends in os._exit (non-zero after a failure), the parent kills all recorded children and re-raises, waits for every child and raises if '
+             'one failed, and _wait is True only for exit status 0; every statement the code generator emits goes through _block_for over all its expressions, which nests `with lock` for each shared array, and '
+             'statement constructors are used elsewhere only at eight listed sites; shared allocation, lock registration and pre-fork lock creation are paired and ctxrange is emitted for outermost loops only; '
+             'arrays crossing a parallel region are shared and every claimed index of _locate gets its slot assigned. These are necessary for exactly-once execution, mutual exclusion, visibility and failure '
+             'propagation; numerical equality, real schedules and the OS primitives are NOT decided.',
+        note='Trusts: CPython ast; os.fork/_exit/waitpid and multiprocessing.Lock semantics; completeness of _pyast Expression.variables (checked under C02/R02.4).',
+        design='DESIGN.md section 2, C16'),
 }
 
 NOT_APPLICABLE = {
